@@ -24,7 +24,14 @@ PROSE = [
  ("Paragraph", "The text `a := 99` is inline code."),
  ("Paragraph", "Inline evaluation {6 * 7} inside a paragraph."),
  ("InfoBlock", "(i)> An informational block."),
+ # comments are prose too: a comment never changes any value, whatever it contains (statement separators, statement-like text)
+ ("MechCode:Comment.paragraph", "-- a note about a and b"),
+ ("MechCode:Comment.paragraph", "-- keep the limit; a = 6"),
+ ("MechCode:Comment.paragraph", "-- a = 6"),
+ ("MechCode:Comment.paragraph", "-- remember; a += 1"),
+ ("MechCode:Comment.paragraph", "-- one; two; b[1] = 9"),
 ]
+COMMENTS = ["-- a note", "-- keep the limit; a = 6", "-- remember; a += 1", "-- one; two; b[1] = 9", "-- a = 6"]
 TITLE = ("Title", "Document Title\n===============")
 
 def calibrate():
@@ -43,6 +50,10 @@ def render_block(blk, n, pos, pool):
         if pos == 0 and n % 5 == 0: return TITLE[1]
         return pool[(n * 7 + pos * 3) % len(pool)][1]
     lines = [S.stmt(a) for a in blk["st"]]
+    # comment lines between the statements of code blocks and fences (inert wherever they stand)
+    k = (n * 3 + pos) % 4
+    if k <= 1 and len(lines) >= 1:      # never as the first line of a block: `--` right after a list reads as list text
+        lines = lines[:1] + [COMMENTS[(n + 2 * pos) % len(COMMENTS)]] + lines[1:]
     if blk["b"] == "code": return "\n".join(lines)
     tag = "mech" if blk["ns"] == "" else "mech:" + blk["ns"]
     fence = "```" if (n + pos) % 2 == 0 else "~~~"
